@@ -427,6 +427,19 @@ class BaseEncoder:
         return self.writer.pickledata
 
 
+def _doc_literal(doc):
+    """String literal of a docstring to output in source files"""
+    literal = '"""' + doc + '"""'
+    try:
+        if (SECTION_DIVIDER not in doc
+                and ast.literal_eval(literal) == doc):
+            return literal
+    except (SyntaxError, ValueError):
+        pass
+    # Quotes, backslashes or lines looking like section dividers
+    return repr(doc)
+
+
 class ModelEncoder(BaseEncoder):
 
     def __init__(self, writer,
@@ -448,7 +461,7 @@ class ModelEncoder(BaseEncoder):
     def encode(self):
         lines = []
         if self.model.doc is not None:
-            lines.append("\"\"\"" + self.model.doc + "\"\"\"")
+            lines.append(_doc_literal(self.model.doc))
 
         lines.append("from modelx.serialize.jsonvalues import *")
         lines.append("_name = \"%s\"" % self.model.name)
@@ -506,7 +519,7 @@ class SpaceEncoder(BaseEncoder):
 
         lines = []
         if self.space.doc is not None:
-            lines.append("\"\"\"" + self.space.doc + "\"\"\"")
+            lines.append(_doc_literal(self.space.doc))
 
         lines.append("from modelx.serialize.jsonvalues import *")
 
@@ -649,8 +662,8 @@ class CellsEncoder(BaseEncoder):
         if self.target.formula:
             if self.target.formula.source[:6] == "lambda":
                 line = self.target.name + " = " + self.target.formula.source
-                if self.target.doc:
-                    line += "\n" + ("\"\"\"%s\"\"\"" % self.target.doc)
+                if self.target.doc is not None:
+                    line += "\n" + _doc_literal(self.target.doc)
                 lines.append(line)
             else:
                 lines.append(self.target.formula.source)
